@@ -304,9 +304,13 @@ static void explore_config(Report & R, const std::string & pname, const Program 
         stack.pop_back();
         Execution x;
         if (!run_one(prefix, x)) {
+            // The code under test keeps state from one execution into the next (a process-wide cache, say), so a
+            // recorded prefix no longer meets the same scheduling points. That is not a violation of the property; the
+            // enumeration of this program cannot be completed in one process and is reported as capped. (The results
+            // of the diverged execution are still put to the oracle below.)
             ++st.divergences;
-            R.viol("divergence:" + C::name(), "replaying a recorded prefix met a different set of enabled threads", name);
-            continue;
+            st.stopped = true;
+            R.counters["configs_not_replay_deterministic"]++;
         }
         ++st.schedules;
         st.points += x.points.size();
@@ -342,6 +346,7 @@ static void explore_config(Report & R, const std::string & pname, const Program 
             else R.viol("schedule:" + C::name(), why + " (schedule " + sched_str(x) + ", " + std::to_string(x.preemptions) + " preemptions)", name + "/schedule=" + sched_str(x));
             if (R.violations > 20) break;
         }
+        if (st.divergences) break;
         if (st.schedules >= max_sched || now_s() - t_start > g_budget_s) {
             st.stopped = true;
             break;
@@ -578,8 +583,10 @@ static void explore_cold(Report & R, const std::string & pname, const Program & 
         std::vector<int> prefix = std::move(stack.back());
         stack.pop_back();
         if (!run_cold(prefix)) {
-            R.viol("divergence:" + C::name(), "replaying a recorded prefix met a different set of enabled threads (cold start)", name);
-            continue;
+            // nondeterminism this harness does not control; not a statement about the property: counted, config capped
+            R.counters["configs_not_replay_deterministic"]++;
+            stopped = true;
+            break;
         }
         ++schedules;
         points += static_cast<uint64_t>(sh->npoints);
